@@ -187,6 +187,22 @@ fn extreme(curve: Curve, kind: u8, col: &mut Collector) -> Result<(), Failure> {
         for j in 0..4usize {
             ops.push(Op::Constrain { lc: vec![(Var::Com(65_536 + j), Sc::C(ScalarSpec::Rand(j as u64))), (Var::Com(j), Sc::C(ScalarSpec::One)), (Var::L(j % 3), Sc::C(ScalarSpec::Half))], err: None, base: None });
         }
+    } else if kind >= 2 {
+        // `multiply` whose operands are very long expressions (257, 1023, 4099, 66 001 terms) over
+        // commitments, earlier wires and constants, in both phases; the output is then constrained
+        let nterms = [257usize, 1023, 4099, 66_001][(kind as usize - 2) % 4];
+        ops.push(Op::Commit { v: ScalarSpec::Rand(1), blind: ScalarSpec::Rand(2) });
+        ops.push(Op::Commit { v: ScalarSpec::Small(7), blind: ScalarSpec::Rand(3) });
+        ops.push(Op::AllocMul { l: Sc::C(ScalarSpec::Rand(3)), r: Sc::C(ScalarSpec::Small(4)) });
+        let vars = [Var::Com(0), Var::L(0), Var::R(0), Var::Com(1), Var::O(0), Var::One];
+        let long = |off: usize| -> Vec<(Var, Sc)> { (0..nterms).map(|t| (vars[(t + off) % vars.len()], Sc::C(ScalarSpec::Small(1 + ((t * 7 + off) % 13) as u64)))).collect() };
+        ops.push(Op::Mul { left: long(0), right: long(3) });
+        ops.push(Op::Constrain { lc: vec![(Var::O(1), Sc::C(ScalarSpec::One))], err: None, base: None });
+        ops.push(Op::Closure(vec![
+            Op::Challenge { label: 0 },
+            Op::Mul { left: long(1), right: vec![(Var::L(1), Sc::MulReg(ScalarSpec::One, 0))] },
+            Op::Constrain { lc: vec![(Var::O(2), Sc::C(ScalarSpec::Small(3))), (Var::L(2), Sc::C(ScalarSpec::MinusOne))], err: None, base: None },
+        ]));
     } else {
         ops.push(Op::Commit { v: ScalarSpec::Rand(1), blind: ScalarSpec::Rand(2) });
         ops.push(Op::AllocMul { l: Sc::C(ScalarSpec::Rand(3)), r: Sc::C(ScalarSpec::Rand(4)) });
@@ -210,9 +226,9 @@ fn extreme(curve: Curve, kind: u8, col: &mut Collector) -> Result<(), Failure> {
             }
         }
     });
-    col.class(if kind == 0 { "more-than-2^16-commitments" } else { "more-than-2^16-constraints" });
+    col.class(if kind == 0 { "more-than-2^16-commitments" } else if kind == 1 { "more-than-2^16-constraints" } else { "multiply-with-very-long-operands" });
     col.nontrivial(crate::runner::fp_of(&(curve, "extreme", kind)));
-    r.map_err(|e| Failure::new("C01:extreme", format!("{} on {}: {}", if kind == 0 { "65 540 commitments" } else { "70 000 constraints" }, curve.name(), e), json!({"kind": kind, "curve": curve.name()})))
+    r.map_err(|e| Failure::new("C01:extreme", format!("{} on {}: {}", if kind == 0 { "65 540 commitments" } else if kind == 1 { "70 000 constraints" } else { "multiply with very long operands" }, curve.name(), e), json!({"kind": kind, "curve": curve.name()})))
 }
 
 fn dispatch(sub: &str, bytes: &[u8], col: &mut Collector) -> Result<(), Failure> {
@@ -270,7 +286,7 @@ pub fn run(tier: &str, seed: u64) -> i32 {
     }
     if rep.outcome.found.is_empty() {
         let curves: Vec<Curve> = if tier == "thorough" { Curve::ALL.to_vec() } else { vec![Curve::ALL[(seed % 3) as usize]] };
-        let items: Vec<(Curve, u8)> = curves.iter().flat_map(|c| [(*c, 0u8), (*c, 1u8)]).collect();
+        let items: Vec<(Curve, u8)> = curves.iter().flat_map(|c| [(*c, 0u8), (*c, 1u8), (*c, 2), (*c, 3), (*c, 4), (*c, 5)]).collect();
         let o = crate::runner::enumerate("c01/extreme", &items, &|(c, k)| vec![c.index() as u8, *k], &|(c, k), col| extreme(*c, *k, col));
         rep.outcome.merge(o);
         rep.outcome.exhaustive = false;
